@@ -68,6 +68,10 @@ def run(chk):
     hist_common.idlock_obligation(chk, "C04")
     c13_obligation(chk)
     conc(chk)
+    # K goroutines against the composed model (Model/StartConc.v, Properties/C04K.v):
+    # the observed order of the critical sections replayed as the model's serial execution
+    from checks import conc04k
+    conc04k.stage(chk)
     return hist_common.run_property(chk, "C04", note="the concurrent clause is checked on real goroutines under the Go scheduler inside a synctest bubble (sampled schedules), and rests on C13 (mutual exclusion per ID) for the general claim")
 
 
